@@ -557,8 +557,9 @@ def efLoopBody (e : EF) (st : St) : Res :=
         | .ok st1 =>
           let cur := if st1.rb then e.cur else st1.rt :: e.cur
           let st1 := if st1.rb ∧ st1.depth ≤ depth then st1.ev .depthConf else st1
-          let isFunc := match macroget st.macros (t.lit.getD []) with | some m => m.func | none => false
-          let st1 := if st1.rb ∧ lvl ∧ p.fstr ∧ isFunc = true then st1.ev .strNested else st1
+          -- ghost: a macro was replaced inside an argument that is also stringized; an invocation in its
+          -- replacement may take its parentheses from the argument, and those never reach `stringize`
+          let st1 := if st1.rb ∧ p.fstr then st1.ev .strNested else st1
           match rec (.argLoop false) st1 with
           | .error er => .error er
           | .ok st2 => rec (.efLoop { e with depth := depth, paren := paren, str := str, cur := cur, t := st2.rt }) st2
